@@ -55,3 +55,13 @@ Theorem C17_json_find_spec_meaning :
   \/ (Forall (fun x => decode_name (member_name x) <> Some key) ms /\ o = length text).
 Proof. exact find_spec_meaning. Qed.
 Print Assumptions C17_json_find_spec_meaning.
+
+(* non-vacuity and regression: an RFC-valid object with a blank after a comma inside a nested
+   array; the code as it is now finds y at offset 16 = find_spec; the code before the repair
+   of skip_array / skip_object (same model, repaired statements switched off) answered absent *)
+Theorem C17_json_nested_blank_example :
+  render ex1 = ex1_bytes /\ rfc_valid ex1 = true /\
+  find_spec [] ex1 [] [121%N] = 16 /\ json_find_c ex1_bytes [121%N] = Ok 16 /\
+  json_find_old ex1_bytes [121%N] = Ok 18.
+Proof. exact (conj ex1_render (conj (proj2 ex1_wf) (conj ex1_spec (conj ex1_now ex1_old_missed_y)))). Qed.
+Print Assumptions C17_json_nested_blank_example.
